@@ -629,6 +629,7 @@ impl Stream {
             in_flight_recv_data: self.in_flight_recv_data,
             has_pending_send_frames: !self.pending_send.is_empty(),
             has_pending_recv_events: !self.pending_recv.is_empty(),
+            is_linked: true,
         }
     }
 }
